@@ -17,6 +17,9 @@ ARTIFACT_NAMES = ("Time", "Interval", "Duration", "Artifact")
 # clauses that report a construct they found (a write, a computed value), not a pattern they
 # failed to find: the idiom guard of sa/idioms.py does not apply to them
 IDIOM_GUARD_EXEMPT = {"id-sharing", "model-vocabulary", "unique-name"}
+# clauses that conclude from the absence of a path or shape: they need every run of the rule-base
+# analysis to be complete
+NEEDS_ALL_RUNS = {"not-dead", "pod-closure"}
 
 
 def check(ctx, rep, tier):
